@@ -40,7 +40,7 @@ func checkC15(c *Ctx) {
 	c.R.Count("wait loops", w)
 	c.R.Count("broadcast sites", b)
 	c.R.Count("stores to foreign predicate state", s)
-	c.R.Floor("wait loops", w, 4)
-	c.R.Floor("broadcast sites", b, 5)
+	c.R.Floor("wait loops (at least one per side; four on the pinned tree)", w, 2)
+	c.R.Floor("broadcast sites (at least one per condition variable; seven on the pinned tree)", b, 2)
 	c.R.Floor("predicate stores that need a wake-up", s, 4)
 }
